@@ -68,3 +68,18 @@ func VerifSyncOnce(db *DB, ctx context.Context) error {
 func (r *WALReader) VerifPageMap(ctx context.Context, maxBytes int64) (m map[uint32]int64, maxOffset int64, commit uint32, limited bool, err error) {
 	return r.pageMap(ctx, maxBytes)
 }
+
+// VerifLocksFree reports whether the executor semaphore and the checkpoint
+// lock are free. At quiescence (no call in flight, every snapshot reader
+// closed) both must be; a lock that stays taken was leaked.
+func (db *DB) VerifLocksFree() (execFree, chkFree bool) {
+	if db.execSem.TryAcquire(1) {
+		db.execSem.Release(1)
+		execFree = true
+	}
+	if db.chkMu.TryLock() {
+		db.chkMu.Unlock()
+		chkFree = true
+	}
+	return execFree, chkFree
+}
